@@ -1,3 +1,4 @@
+import copy
 import operator
 from functools import wraps
 from typing import Any, Callable, Dict, List, Optional, Type, Union
@@ -237,6 +238,12 @@ class AstToDjangoQVisitor(visitor.NodeVisitor):
         # Should not be wrapped with Value(True/False)
         # See: https://github.com/django/django/blob/0aacbdcf27b258387643b033352e99e6103abda8/django/db/models/lookups.py#L515
         if isinstance(node.right, ast.Null):
+            if isinstance(lhs, Q) and lhs.negated:
+                # Django renders this as 'NOT (..) IS NULL', which SQL reads as
+                # 'NOT ((..) IS NULL)'. A negated condition is NULL exactly when
+                # the condition itself is, so test the condition:
+                lhs = copy.copy(lhs)
+                lhs.negated = False
             if isinstance(node.comparator, ast.Eq):
                 return lookups.IsNull(lhs, True)
             elif isinstance(node.comparator, ast.NotEq):
